@@ -24,6 +24,7 @@ class Prop:
     components_real = []
     components_stub = []
     assumptions = []
+    known = frozenset()   # signatures of open findings (set by the runner)
     runs = {"quick": 4000, "thorough": 100000}
     budget_s = {"quick": 60.0, "thorough": 600.0}
     shrink_s = {"quick": 20.0, "thorough": 40.0}
